@@ -29,8 +29,9 @@ func main() {
 	sim.WorkerMain(sim.EngineSpec{
 		Name: "wsim",
 		Props: map[string]sim.PropSpec{
-			"C01": {Run: runC01, Modes: []string{"generated", "corpus", "generated"}},
-			"C02": {Run: runC02, Modes: []string{"generated", "corpus", "axioms", "generated", "flow"}},
+			"C01": {Run: runC01, Modes: []string{"generated", "corpus", "generated", "expr"}},
+			"C02": {Run: runC02, Modes: []string{"generated", "corpus", "axioms", "generated", "flow", "expr"}},
+			"C04": {Run: runC04, Modes: []string{"expr", "expr", "generated", "expr", "flow", "corpus"}},
 		},
 	})
 }
@@ -197,6 +198,9 @@ func runC01(tp *sim.Tape, opt sim.RunOpt) *sim.Outcome {
 	if opt.Mode == "corpus" {
 		c := corpus[tp.Draw(len(corpus))]
 		src, name = c.src, "corpus:"+c.name
+	} else if opt.Mode == "expr" {
+		src = generateExprProgram(tp)
+		name, mech = "generated-expr", lastGenMech
 	} else {
 		src = generate(tp)
 		name, mech = "generated", lastGenMech
@@ -206,6 +210,7 @@ func runC01(tp *sim.Tape, opt sim.RunOpt) *sim.Outcome {
 	p, err := load(src)
 	if err != nil {
 		o.Probe("rejected_by_compiler")
+		o.Probe("rejected_by_compiler mode=" + opt.Mode)
 		if opt.Mode == "corpus" {
 			o.Probe("corpus_rejected: " + name)
 		}
@@ -213,6 +218,7 @@ func runC01(tp *sim.Tape, opt sim.RunOpt) *sim.Outcome {
 		return o
 	}
 	o.Probe("accepted_by_compiler")
+	o.Probe("accepted_by_compiler mode=" + opt.Mode)
 	for _, m := range mech {
 		if m != "helper" {
 			o.Probe("accepted_mechanism " + m)
